@@ -183,6 +183,7 @@ class Model:
         for d in table.values():
             for v in d.values():
                 known.update(v)
+        scoped = {}    # (module, class) -> renames applied inside it only
         amap = {}      # attribute / method renames (global)
         gmap = {}      # module name -> {global or function rename}
         for modname, mod in self.modules.items():
@@ -221,14 +222,33 @@ class Model:
                     if len(old) != len(names):
                         continue
                     pairs = [(o, n) for o, n in zip(old, names) if o != n]
-                    if any(o in names or n in old or n in vocab or n in known
-                           for o, n in pairs):
+                    if any(o in names or n in old for o, n in pairs):
                         continue
                     for o, n in pairs:
+                        if n in vocab or n in known:
+                            # the new name means something elsewhere too:
+                            # map it back inside this class only
+                            if cname:
+                                scoped.setdefault((modname, cname), {})[n] = o
+                            continue
                         if cname:
                             amap[n] = o
                         else:
                             gmap.setdefault(modname, {})[n] = o
+        for (modname, cname), ren in scoped.items():
+            for st in self.modules[modname].tree.body:
+                if isinstance(st, ast.ClassDef) and st.name == cname:
+                    for n in ast.walk(st):
+                        if isinstance(n, ast.Attribute) and n.attr in ren \
+                                and isinstance(n.value, ast.Name) \
+                                and n.value.id == "self":
+                            n.attr = ren[n.attr]
+                        elif isinstance(n, (ast.FunctionDef,
+                                            ast.AsyncFunctionDef)) \
+                                and n.name in ren:
+                            n.name = ren[n.name]
+            self.renamed.update({"%s.%s.%s" % (modname, cname, k): v
+                                 for k, v in ren.items()})
         if not amap and not gmap:
             return
         for modname, mod in self.modules.items():
@@ -256,7 +276,7 @@ class Model:
                         n.attr = ren[n.attr]
                     if isinstance(n, ast.alias) and n.name in ren:
                         n.name = ren[n.name]
-        self.renamed = dict(amap)
+        self.renamed.update(amap)
         for ren in gmap.values():
             self.renamed.update(ren)
 
